@@ -410,9 +410,16 @@ pub(crate) fn parse_unknown_ifdata(
                 } else {
                     // try again, looks like the number is a float instead
                     parser.undo_get_token();
-                    let floatnum = parser.get_float(context)?; // if this also returns an error, it is neither int nor float, which is a genuine parse error
-                    let line_offset = parser.get_line_offset();
-                    items.push(GenericIfData::Float(line_offset, floatnum));
+                    if let Ok(floatnum) = parser.get_float(context) {
+                        let line_offset = parser.get_line_offset();
+                        items.push(GenericIfData::Float(line_offset, floatnum));
+                    } else {
+                        // too large for an f32: keep it as a double
+                        parser.undo_get_token();
+                        let doublenum = parser.get_double(context)?; // if this also returns an error, it is neither int nor float, which is a genuine parse error
+                        let line_offset = parser.get_line_offset();
+                        items.push(GenericIfData::Double(line_offset, doublenum));
+                    }
                 }
             }
             A2lTokenType::Begin => {
